@@ -234,8 +234,90 @@ def selftest_binding(c, ot):
                                               "rejected_by": rule, "line": line})
 
 
+PROGS = {
+    "ProgA": (3, [dict(upd=True, reads=[1], writes=[2]), dict(upd=True, reads=[2], writes=[1, 2]),
+                  dict(upd=False, reads=[1, 2], writes=[])]),
+    "ProgB": (4, [dict(upd=True, reads=[1], writes=[1]), dict(upd=True, reads=[2], writes=[1]),
+                  dict(upd=True, reads=[1], writes=[2]), dict(upd=False, reads=[1], writes=[])]),
+    "ProgC": (4, [dict(upd=True, reads=[], writes=[1]), dict(upd=True, reads=[], writes=[1]),
+                  dict(upd=True, reads=[1], writes=[2]), dict(upd=True, reads=[2], writes=[2])]),
+}
+
+
+def gated_stage(c, prop, num, seed):
+    """OracleGen schedules forced on the real commit pipeline with gates (harness/cmd/orcreplay)."""
+    binp = vlib.go_build("cmd/orcreplay")
+    allcases = []
+    for name, (ntx, prog) in PROGS.items():
+        d = vlib.stage_specs(["oracle"])
+        with open(os.path.join(d, "OG.cfg"), "w") as f:
+            f.write("SPECIFICATION GenSpec\nCONSTANTS\n  Txns = {%s}\n  Keys = {1, 2}\n  MaxTs = %d\n  Prog <- %s\n"
+                    "  HistLen = 60\nINVARIANTS Emit GenSound\n" % (", ".join(str(i) for i in range(1, ntx + 1)), ntx, name))
+        res = vlib.run_tlc(d, "OracleGen_MC", "OG.cfg", timeout=600, workers=2, simulate=max(1, num // 2), depth=64, seed=seed)
+        if not res.ok:
+            raise Inconclusive("OracleGen %s failed: %s" % (name, (res.error_trace or res.out)[-1500:]))
+        seen = set()
+        for h in res.cases:
+            k = json.dumps([(s["act"], s["t"]) for s in h])
+            if k in seen:
+                continue
+            seen.add(k)
+            allcases.append({"prog": prog, "keys": 2, "steps": h, "name": name})
+        c.cov["tlc_runs"].append({"config": "gen:OracleGen " + name, "schedules": len(seen), "wall_s": round(res.wall, 1)})
+    d = vlib.scratch("orc-")
+    inp = os.path.join(d, "cases.ndjson")
+    open(inp, "w").write("".join(json.dumps(x) + "\n" for x in allcases))
+    nproc = min(8, max(1, len(allcases) // 40))
+    t0 = time.time()
+    procs = [subprocess.Popen([binp, "-in", inp, "-shard", str(s), "-nshards", str(nproc)], stdout=subprocess.PIPE,
+                              stderr=subprocess.PIPE, env=vlib.goenv(), text=True) for s in range(nproc)]
+    results = []
+    for p in procs:
+        try:
+            out, err = p.communicate(timeout=1500)
+        except subprocess.TimeoutExpired:
+            p.kill()
+            raise Inconclusive("orcreplay timed out")
+        if p.returncode != 0:
+            raise Inconclusive("orcreplay failed: %s" % err[-2000:])
+        results += [json.loads(l) for l in out.splitlines() if l.strip()]
+    if len(results) != len(allcases):
+        raise Inconclusive("orcreplay: %d results for %d cases" % (len(results), len(allcases)))
+    bad = [r for r in results if not r["ok"]]
+    windows = sum(1 for x in allcases if any(s["obs"]["blocked"] for s in x["steps"]))
+    c.cov["engines"].append({"replay": "OracleGen schedules forced with gates", "schedules": len(allcases),
+                             "schedules_with_a_blocked_reader_window": windows,
+                             "schedules_with_lock_contention": sum(1 for x in allcases if any(s["act"] == "trystamp" for s in x["steps"])),
+                             "deviations": len(bad), "wall_s": round(time.time() - t0, 1)})
+    per = {}
+    one = os.path.join(d, "one.ndjson")
+    nharness = 0
+    for r in bad:
+        if r["sig"].startswith("harness."):
+            nharness += 1
+            continue
+        per[r["sig"]] = per.get(r["sig"], 0) + 1
+        if per[r["sig"]] > 2:
+            continue
+        open(one, "w").write(json.dumps(allcases[r["case"]]) + "\n")
+        rc, out, err, _ = vlib.run([binp, "-in", one], timeout=120)
+        if rc != 0 or not out.strip() or json.loads(out.splitlines()[0])["ok"]:
+            log("oracle deviation did not reproduce:", r["sig"])
+            continue
+        c.violation("oracle:gated %s" % r["sig"], r.get("detail"),
+                    {"prog": allcases[r["case"]]["name"], "schedule": [(s["act"], s["t"]) for s in allcases[r["case"]]["steps"]]})
+    if nharness > max(3, len(allcases) // 20):
+        raise Inconclusive("orcreplay: %d harness-level problems" % nharness)
+    c.cov["evaluations"] += len(allcases)
+    c.cov["traces_validated_against_impl"] += len(allcases)
+    if allcases:
+        c.sample({"gated_schedule": [(s["act"], s["t"]) for s in allcases[0]["steps"]]})
+    return allcases
+
+
 def stage(c, prop):
     """Hook for C01/C03: concurrent-pipeline stage (traces of free-running workloads)."""
     seeds = [c.seed] if c.quick else [c.seed, c.seed + 1, c.seed + 2]
     mc_oracle(c, c.quick)
+    gated_stage(c, prop, 300 if c.quick else 6000, c.seed)
     trace_stage(c, prop, c.quick, seeds, modules=("OracleTrace",))
